@@ -53,8 +53,12 @@ def run_case(case):
     fams, cond, assign = MODELS[mname]
     model, _ = zoo.build_model(fams, cond, assign)
     S = model.draw_sample(n, random_state=sseed)
+    if case.get("int_sample"):      # integer-typed sample (whole decimetres): ties, int dtype
+        S = np.round(S * 10).astype(np.int64)
+        S = S[(S[:, 0] > 0) & (S[:, 1] > 0)]
     x, y = S.T
     viol, ncont, nontriv, exempt, refused = [], 0, 0, 0, 0
+    rays = {"kept": 0, "dropped": 0}
     outcomes = set()
     for kind, alpha, step, ae, lohi in itertools.product(case["kinds"], case["alphas"], case["steps"], case["aes"], case["lohis"]):
         if kind == "and" and lohi != case["lohis"][0]:
@@ -140,6 +144,8 @@ def run_case(case):
                     break
                 k += 1
             if ok:
+                rays["kept"] += int(kept.sum())
+                rays["dropped"] += int((~kept).sum())
                 for j, th in enumerate(thetas):
                     if kept[j]:
                         continue
@@ -151,7 +157,8 @@ def run_case(case):
                         break
         outcomes.add("ok")
     return {"viol": viol, "n": ncont, "nontrivial": nontriv, "outcomes": list(outcomes),
-            "count": {"exempt_precision_warning": exempt, "refused_all_rays_dropped": refused}}
+            "count": {"exempt_precision_warning": exempt, "refused_all_rays_dropped": refused, "or_rays_kept": rays["kept"],
+                      "or_rays_dropped": rays["dropped"]}}
 
 
 def main(ctx):
@@ -176,5 +183,8 @@ def main(ctx):
                     for alpha in alphas:
                         cases.append({"model": m, "n": n, "sample_seed": sseed, "kinds": [kind], "alphas": [alpha],
                                       "steps": steps, "aes": aes, "lohis": lohis, "run_seed": ctx.seed})
+    for kind in ("and", "or"):
+        cases.append({"model": "w_ln", "n": 5000, "sample_seed": 9, "kinds": [kind], "alphas": [0.05, 0.2], "steps": [7, 15],
+                      "aes": [0.05, 0.2], "lohis": lohis[:2], "run_seed": ctx.seed, "int_sample": True})
     cases.sort(key=lambda c: -c["n"])
     ctx.pmap(cases, label="andor")
